@@ -148,7 +148,72 @@ func runC01(c *Ctx) {
 		}))
 	}
 	c.SetPlan("clients", plan)
+	// raw reference peers with chosen ids: strings, integers up to 2^53, equal-looking pairs in flight at once
+	type rawCall struct {
+		id    string // raw JSON of the id
+		nonce string
+	}
+	var rawCalls []rawCall
+	var rawPeers []*rawPeer
+	if t.Bool(45) {
+		idPool := []string{`""`, `"1"`, `1`, `0`, `-1`, `2147483648`, `9007199254740991`, `9007199254740992`, `"ключ"`, `"` + strings.Repeat("i", 1024) + `"`, `"1.0"`, `"null"`, `"a b"`}
+		peer, err := newRawPeer(c, w, "rawpeer", false)
+		if err != nil {
+			if !faulty {
+				s.Violate("C01|raw-handshake|mode="+mode, "raw peer handshake failed: %v", err)
+			}
+		} else {
+			rawPeers = append(rawPeers, peer)
+			n := 2 + t.Draw(4)
+			used := map[string]bool{}
+			for i := 0; i < n; i++ {
+				id := idPool[t.Draw(len(idPool))]
+				if used[id] {
+					continue
+				}
+				used[id] = true
+				rawCalls = append(rawCalls, rawCall{id: id, nonce: c.Nonce("raw")})
+			}
+			var descr []string
+			for _, rc := range rawCalls {
+				descr = append(descr, short(rc.id))
+			}
+			c.SetPlan("raw_ids", descr)
+			for _, rc := range rawCalls {
+				body := []byte(`{"jsonrpc":"2.0","id":` + rc.id + `,"method":"tools/call","params":{"name":"echo","arguments":{"nonce":"` + rc.nonce + `","delay_ms":` + fmt.Sprint(t.Pick(0, 0, 2)) + `}}}`)
+				clientTasks = append(clientTasks, s.Go("rawpeer/send"+rc.nonce, func() { peer.post(body) }))
+			}
+		}
+	}
 	alive := s.WaitTasks(25*time.Minute, clientTasks...)
+	if len(rawPeers) > 0 && !faulty {
+		s.Settle(20 * time.Millisecond)
+		frames := rawPeers[0].allFrames()
+		for _, rc := range rawCalls {
+			n := 0
+			for _, f := range frames {
+				fi, _ := parseFrame(f)
+				if fi.ID == rc.id && (fi.Kind == "response" || fi.Kind == "error") {
+					n++
+					if !strings.Contains(string(f), "r:"+rc.nonce) {
+						s.Violate("C01|raw-wrong-answer|mode="+mode, "the response with id %s carries %q, the request with that id had nonce %s", short(rc.id), short(string(f)), rc.nonce)
+					}
+				}
+			}
+			if n != 1 {
+				var ids []string
+				for _, f := range frames {
+					fi, _ := parseFrame(f)
+					ids = append(ids, short(fi.ID))
+				}
+				s.Violate(fmt.Sprintf("C01|raw-id-not-echoed|mode=%s|n=%d", mode, n), "request id %s (JSON text) got %d responses with exactly that id; ids on the wire: %v", short(rc.id), n, ids)
+			}
+			if got := w.Count.Get("tool:" + rc.nonce); got != 1 {
+				s.Violate("C01|raw-handler-count|mode="+mode, "handler ran %d times for the raw request with id %s", got, short(rc.id))
+			}
+		}
+		s.Probe("c01.raw_peer_runs")
+	}
 
 	// ---- oracle ----
 	counts := w.Count.Snapshot()
